@@ -9,6 +9,9 @@ import (
 func buffer(p *lang.Process, dt string) (stdio.Io, int, error) {
 	stdin := streams.NewStdinWithContext(p.Context, p.Done)
 	stdin.SetDataType(dt)
+	// everything is written before anything is read: with the default limit
+	// the write below blocks forever once more than 1 MiB has been buffered
+	stdin.SetMaxBufferSize(0)
 
 	array, err := stdin.WriteArray(dt)
 	if err != nil {
